@@ -219,6 +219,12 @@ void
 nni_msgq_aio_put(nni_msgq *mq, nni_aio *aio)
 {
 	nni_mtx_lock(&mq->mq_lock);
+	if (mq->mq_closed) {
+		// Nobody will ever serve this queue again.
+		nni_mtx_unlock(&mq->mq_lock);
+		nni_aio_finish_error(aio, NNG_ECLOSED);
+		return;
+	}
 
 	if (nni_list_empty(&mq->mq_aio_putq) &&
 	    ((!nni_list_empty(&mq->mq_aio_getq)) ||
@@ -247,6 +253,11 @@ void
 nni_msgq_aio_get(nni_msgq *mq, nni_aio *aio)
 {
 	nni_mtx_lock(&mq->mq_lock);
+	if (mq->mq_closed) {
+		nni_mtx_unlock(&mq->mq_lock);
+		nni_aio_finish_error(aio, NNG_ECLOSED);
+		return;
+	}
 	if (nni_list_empty(&mq->mq_aio_getq) &&
 	    ((mq->mq_len != 0) || (!nni_list_empty(&mq->mq_aio_putq)))) {
 		// As for put: a message (or a writer) is there and nobody is
